@@ -2,13 +2,20 @@
 """Prompt for an independent sub-agent producing BEHAVIOUR-PRESERVING refactorings (to measure false alarms of the checks).
 usage: refactor_prompt.py <name> <file> [<file> ...]   (worktree /tmp/seed/<name>, outputs /tmp/seed/<name>-out/)"""
 import sys
-name, files = sys.argv[1], sys.argv[2:]
+import os
+name = sys.argv[1]
+args = sys.argv[2:]
+files = [a for a in args if not a.startswith("fn=")]
+fns = [a[3:] for a in args if a.startswith("fn=")]
+N = int(os.environ.get("REFACTOR_COUNT", "6"))
+words = {6: "SIX", 8: "EIGHT", 10: "TEN"}.get(N, str(N))
+focus = ("\nFUNCTIONS to choose from (pick among these first; they carry the logic we care about): " + ", ".join(fns) + "\n") if fns else ""
 print(f"""You are helping to test a static verification harness for the open-source project apple/swift-llbuild (C++). The harness must stay SILENT on code whose behaviour is unchanged, so we need realistic BEHAVIOUR-PRESERVING refactorings to try it on. Work ONLY inside the scratch git worktree /tmp/seed/{name} (a full checkout with a configured build in ./_build; `./run_tests.sh` rebuilds and runs the project's 83 pinned unit tests, ~30 s). Do not read or touch /repo or /verif, and do not use the network. Do not use `git stash` (the stash is shared with other worktrees).
 
 FILES to refactor (pick functions that carry real logic, not trivial accessors): {', '.join(files)}
-
+{focus}
 YOUR TASK
-Produce SIX independent refactorings, each touching one or two functions, each of the kind a maintainer does during clean-up and each preserving the observable behaviour EXACTLY (same results, same side effects in the same order, same locking, same error handling, same memory accesses being in bounds). Use a VARIETY of kinds, for example:
+Produce {words} independent refactorings, each touching one or two functions, each of the kind a maintainer does during clean-up and each preserving the observable behaviour EXACTLY (same results, same side effects in the same order, same locking, same error handling, same memory accesses being in bounds). Use a VARIETY of kinds, for example:
   - introduce or inline a local variable / a named boolean for a condition;
   - turn `if (c) {{ A; return; }} B;` into `if (c) {{ A; }} else {{ B; }}` or vice versa; invert a condition and swap the arms; merge nested ifs into `&&` or split an `&&`;
   - replace an index loop by an iterator / range-for loop or vice versa (same order, same bounds); turn a `while` into a `for`;
@@ -19,8 +26,8 @@ Produce SIX independent refactorings, each touching one or two functions, each o
   - replace a `switch` by an if-chain or vice versa (same cases).
 Do NOT change algorithms, constants, string literals that reach users or files, lock scopes, the order of externally visible calls (callbacks, system calls, database statements), or error handling.
 
-For EACH refactoring k = 1..6:
+For EACH refactoring k = 1..{N}:
   1. start from a clean tree (`git checkout -- .`), apply only that refactoring, run `./run_tests.sh` (all seven binaries must print PASSED, exit 0);
   2. save it: `git diff > /tmp/seed/{name}-out/r<k>.diff`;
   3. write one line to /tmp/seed/{name}-out/r<k>.txt: the function(s) touched, the kind of refactoring, and why behaviour is unchanged.
-Finish with `git checkout -- .` (clean tree) and a short report listing the six refactorings. If a refactoring fails the tests, fix or drop it and report honestly which ones are verified. Be careful: a refactoring that accidentally changes behaviour is worse than none.""")
+Finish with `git checkout -- .` (clean tree) and a short report listing the refactorings. If a refactoring fails the tests, fix or drop it and report honestly which ones are verified. Be careful: a refactoring that accidentally changes behaviour is worse than none.""")
